@@ -400,6 +400,70 @@ class LazyMixin:
     def b_numpy_argmax(self, args, kw, st, n):
         return self._extremum(args, kw, st, n, False)
 
+    # ------------------------------------------------------------ elementwise / small reductions used by the kernels
+    def b_numpy_abs(self, args, kw, st, n):
+        a = args[0]
+        if isinstance(a, (SArr, LArr)):
+            src = frozen(a, st)
+            return LArr(dtype_of(a), shape_of(a), lambda ix, st2, src=src: CallAbs(elem(src, ix, st2)), None, "abs")
+        return super().b_numpy_abs(args, kw, st, n)
+
+    def b_numpy_argsort(self, args, kw, st, n):
+        """assumed contract: a permutation of range(len(a)) (the ORDER is not modelled: nothing proved depends on it)"""
+        a = args[0]
+        shape = shape_of(a)
+        if len(shape) != 1:
+            raise Unsupported("argsort of a %d-D array (line %d)" % (len(shape), n.lineno))
+        P = z3.Function(fresh_name("argsort"), I, I)
+        i, j = z3.Int(fresh_name("i")), z3.Int(fresh_name("j"))
+        nn = zi(shape[0])
+        st.assume(z3.ForAll([i], z3.Implies(z3.And(i >= 0, i < nn), z3.And(P(i) >= 0, P(i) < nn)), patterns=[P(i)]))
+        st.assume(z3.ForAll([i, j], z3.Implies(z3.And(i >= 0, i < nn, j >= 0, j < nn, i != j), P(i) != P(j)),
+                            patterns=[z3.MultiPattern(P(i), P(j))]))
+        return LArr("i", [shape[0]], lambda ix, st2, P=P: P(zi(ix[0])), None, "argsort")
+
+    def b_numpy_nanmedian(self, args, kw, st, n):
+        """assumed contract: NaN iff every element is NaN; otherwise a non-NaN value between two non-NaN elements"""
+        a = args[0]
+        shape = shape_of(a)
+        if len(shape) != 1 or kw.get("axis") is not None:
+            raise Unsupported("nanmedian form (line %d)" % n.lineno)
+        src = frozen(a, st)
+        from .vals import fresh_float
+        r = fresh_float("nanmedian")
+        i = z3.Int(fresh_name("i"))
+        nn = zi(shape[0])
+        inr = z3.And(i >= 0, i < nn)
+        e = fl.F(_num(elem(src, [i], st)))
+        allnan = z3.ForAll([i], z3.Implies(inr, fl.isnan(e)))
+        lo = z3.Exists([i], z3.And(inr, z3.Not(fl.isnan(e)), fl.le(e, r)))
+        hi = z3.Exists([i], z3.And(inr, z3.Not(fl.isnan(e)), fl.le(r, e)))
+        st.assume(z3.And(fl.isnan(r) == allnan, z3.Implies(z3.Not(fl.isnan(r)), z3.And(lo, hi))))
+        return r
+
+    def sum2d(self, v, dims, st, n):
+        """np.sum over a 2-D slice of NON-NEGATIVE integer elements (flag tests): assumed contract
+        S >= 0 and (S == 0 <=> every element is 0)"""
+        if self.elem_is_float(v):
+            raise Unsupported("np.sum over a 2-D float slice (line %d)" % n.lineno)
+        S = fresh_int("sum2d")
+        a, b = z3.Int(fresh_name("a")), z3.Int(fresh_name("b"))
+        (lo0, hi0), (lo1, hi1) = dims
+        e = zi(to_int(self.sview_elem(self._rebase0(v), [a, b], st)))
+        inr = z3.And(a >= lo0, a < hi0, b >= lo1, b < hi1)
+        if not self.spec:
+            q = z3.ForAll([a, b], z3.Implies(inr, e >= 0))
+            self.emit(st, "pre@call", "sum2d.L%d" % n.lineno, q, n, "np.sum over flags: elements are non-negative")
+        st.assume(z3.And(S >= 0, (S == 0) == z3.ForAll([a, b], z3.Implies(inr, e == 0))))
+        return S
+
+    def _rebase0(self, v):
+        """same view with every slice starting at absolute position 0 (positions are then absolute)"""
+        if v[0] == "smap":
+            return ("smap", self._rebase0(v[1]), v[2])
+        _, arr, axes = v
+        return ("sview", arr, [ax if ax[0] == "i" else ("s", z3.IntVal(0), ax[2]) for ax in axes])
+
     def b_enumerate(self, args, kw, st, n):
         if isinstance(args[0], SChunks):
             return ("enumerate_chunks", args[0])
@@ -494,3 +558,10 @@ def _num(v):
     if isinstance(v, SFloat):
         return v
     return to_int(v)
+
+
+def CallAbs(v):
+    if is_float(v):
+        return fl.fabs(fl.F(v))
+    v = to_int(v)
+    return abs(v) if isinstance(v, int) else z3.If(v >= 0, v, -v)
